@@ -12,6 +12,13 @@ CHECKS = {
         note="Bounded by the schema families (F_shape, quick F_grid slice, seeded random tail); CPython int/bytearray modelled by guarded BV-192 / SymBytes, validated against native CPython on witness and extreme values every run; z3 trusted.",
         design="6/C01",
     ),
+    "C02": dict(
+        category="translation_validation",
+        technique="symbolic execution of generated Python + bp.py (own z3 BV proxies): encode->decode->encode, unsat for all values",
+        text="For every message of the families, encode() -> decode() into a fresh message -> encode() run symbolically through the real generated module and bp.py; z3 proves per path that no exception escapes, every decoded leaf equals the input leaf and lies in range, and the second encoding equals the first and the specified bytes; models are replayed natively before being reported.",
+        note="Same bounds and trusted base as C01; enum leaves fork per member, sign handling is if-converted (declared AST transform); known finding D15 (enum without zero member) is reported as KNOWN-FINDING via its cause key.",
+        design="6/C02",
+    ),
 }
 
 NOT_APPLICABLE = {
@@ -55,7 +62,7 @@ def main():
             "add_only": True,
         },
         "engines": [
-            {"name": "pysym", "path": "vlib/pysym.py", "serves_properties": ["C01"], "kind_free_text": "DART-style symbolic execution of the real Python sources with z3 proxies (BV-192 / Int)"},
+            {"name": "pysym", "path": "vlib/pysym.py", "serves_properties": ["C01", "C02"], "kind_free_text": "DART-style symbolic execution of the real Python sources with z3 proxies (BV-192 / Int)"},
         ],
         "checks": checks,
         "not_applicable": na,
